@@ -19,7 +19,9 @@ def work(args):
     calls = nontriv = 0
     samples = []
     j = 0
-    for dims, ext in cases.cube_cases(tier, min_subcubes=3):
+    import itertools
+
+    for dims, ext, big in itertools.chain(((d, e, False) for d, e in cases.cube_cases(tier, min_subcubes=3)), ((d, e, True) for d, e in cases.big_scaffold_cases(tier))):
         j += 1
         if j % nshards != shard:
             continue
@@ -28,6 +30,8 @@ def work(args):
             facs, F = (cases.ffunc_factories(N) if kind == "ccube" else cases.xfunc_factories(N))
             names = sorted(facs)
             groups = [[n] for n in names] + [names[:4], names[4:9], names[-5:]]
+            if big:
+                groups = [names[:4], [names[len(names) // 2]], names[-5:]]
             for grp in groups:
                 ex = {"cube": kind, "dims": [d.tolist() for d in dims], "interacting_shape": list(ext), "aggregates": grp}
                 cls = {"cube": kind, "aggregates": ",".join(grp)}
@@ -53,7 +57,12 @@ def work(args):
                     cc.multiprocessing = real_mp
                     xcube.pool_class = real_pool_class
                 q = "%ss.%s.calculate" % (kind, kind)
-                MON.check(q + "/pooled-path-engaged-once", len(log) == 1 and log[0]["tasks"] >= 3, lambda: "pool.map calls: %r" % (log,), ex, cls)
+                MON.check(q + "/pooled-path-engaged", len(log) >= 1 and sum(l["tasks"] for l in log) >= 3, lambda: "pool.map calls: %r" % ([l["tasks"] for l in log],), ex, cls)
+                got = sorted(tuple(int(e) for e in co) for l in log for co in l["coords"])
+                want = sorted(np.ndindex(*[int(e) for d in dims for e in d.shape[1:]]))
+                MON.check(q + "/task-frame-O5-every-sub-cube-handed-to-the-pool-exactly-once", got == want,
+                          lambda: "%d tasks handed over for %d sub-cubes; never handed: %r; more than once: %r" % (
+                              len(got), len(want), sorted(set(want) - set(got))[:5], sorted({c for c in got if got.count(c) > 1})[:5]), ex, cls)
                 viol = [v for l in log for v in l["violations"]]
                 for code in ("O1", "O2", "O3", "O4", "monitor"):
                     these = [v for v in viol if v[0] == code]
